@@ -16,7 +16,7 @@ From stdpp Require Import gmap list sorting.
 From Coq Require Import NArith ZArith Lia.
 From VFS Require Import Core.Types Core.Prog Core.Calls Spec.Tree Base.MemFS Base.Handles Base.PhysFS Base.Embedded Base.Store
   Layer.VfsPath Layer.Overlay Proofs.ProgProofs Proofs.MemProofs Proofs.MemCalls Proofs.MemPublic Proofs.ConcProofs
-  Proofs.Composite Proofs.OvlProofs Proofs.OvlList Proofs.OvlLife.
+  Proofs.Composite Proofs.OvlProofs Proofs.OvlList Proofs.OvlLife Proofs.CopyFile Proofs.OvlAppend.
 
 Section Deep.
   Variables (lg : list (nat * fscall)) (ft : option (nat * nat)).
@@ -542,5 +542,52 @@ Section Deep.
         rewrite bool_decide_eq_true_2 by exact Hm. reflexivity.
       - rewrite H0, Hm, H1. rewrite (bool_decide_eq_false_2 (is_Some None)) by (intros [? ?]; discriminate). reflexivity. }
     split; cbn [ovl_impl]; unfold bind_res at 1; rewrite run_bind, Hrp; reflexivity.
+  Qed.
+  (** ** append_file on a file that only the lower layer has, at any depth: the parent chain and the file are
+      copied up; the handle's buffer continues the lower layer's bytes; the view is unchanged (the copy shows
+      the same bytes); the lower layer keeps its bytes (its access time is stamped by the read) *)
+  Theorem append_lower_deep (s0 s1 : mstate) hs (p : path) f :
+    wf s0 -> p <> [] -> reachable s0 s1 p ->
+    s0 !! p = None -> s0 !! marker p = None -> s1 !! p = Some f -> f_type f = File ->
+    exists s0',
+      run bhandler (ovl_impl top lower (CAppendFile p)) (S2 s0 s1 hs) =
+        (S2 s0' (<[p := touched f]> s1)
+            (hs ++ [HClosed; HClosed; HMemWriter 0 p (f_content f) (Z.of_nat (length (f_content f)))]),
+         Ok (length hs + 2)%nat) /\
+      wf s0' /\
+      forall q, user_path q -> view s0' (<[p := touched f]> s1) q = view s0 s1 q.
+  Proof.
+    intros Hwf Hp [Hup Hvis] Hup0 Hm Hlow Hty.
+    destruct (ensure_parent_deep s0 s1 hs p Hwf Hp Hvis) as (sa & Hrun & Hpar & Hwfa & Hdirs & Hsame).
+    pose proof (copyup_view s0 s1 sa (removelast p) (user_parent_head p Hup) Hvis Hdirs Hsame) as Hview.
+    assert (Hpnot : p ∉ prefixes (removelast p)) by (apply not_prefix_of_parent; exact Hp).
+    assert (Hmnot : marker p ∉ prefixes (removelast p)).
+    { intros Hin. apply prefixes_head in Hin. rewrite marker_head in Hin.
+      destruct (user_parent_head p Hup) as [E|E]; [rewrite E in Hin; discriminate|congruence]. }
+    assert (Hsap : sa !! p = None) by (rewrite (Hsame p Hpnot); exact Hup0).
+    assert (Hsam : sa !! marker p = None) by (rewrite (Hsame _ Hmnot); exact Hm).
+    set (c := f_content f).
+    cbn [ovl_impl]. unfold write_path. cbn [fst snd app].
+    unfold bind_res at 1. rewrite run_bind, exists0, Hup0.
+    rewrite bool_decide_eq_false_2 by (intros [? ?]; discriminate).
+    unfold bind_res at 1. rewrite run_bind.
+    unfold bind_res at 1. rewrite run_bind, Hrun.
+    unfold bind_res at 1. rewrite run_bind, (read_path_rule hs lg ft sa s1 p Hp), Hsap, Hsam, Hlow.
+    repeat (rewrite bool_decide_eq_false_2 by (intros [? ?]; discriminate)).
+    rewrite bool_decide_eq_true_2 by eauto. cbn [fst snd].
+    rewrite (copy_file_across lg ft sa s1 hs p p f Hlow Hty Hp Hpar Hsap). cbn [run].
+    fold c.
+    rewrite (append_file0 lg ft _ (<[p := touched f]> s1) _ p (fresh_file c)); [|apply lookup_insert|reflexivity].
+    rewrite <- app_assoc. cbn [app length f_content fresh_file].
+    rewrite app_length. cbn [length].
+    exists (<[p := fresh_file c]> sa). split; [reflexivity|]. split.
+    - destruct Hwfa as [Hr Hpc]. split; [apply root_dir_insert_ne; auto|]. apply pc_insert_leaf; auto. eapply absent_is_leaf; eauto.
+    - intros q [Hqh Hqn]. rewrite <- (Hview q). unfold view.
+      assert (Hmq : marker q <> p) by (intros E; destruct Hup as [Hh _]; rewrite <- E, marker_head in Hh; congruence).
+      rewrite (lookup_insert_ne sa p (marker q)) by congruence.
+      destruct (decide (q = p)) as [->|Hne].
+      + rewrite lookup_insert, Hsap, Hsam, Hlow.
+        rewrite bool_decide_eq_false_2 by (intros [? ?]; discriminate). cbn. unfold absf. cbn. now rewrite Hty.
+      + rewrite !lookup_insert_ne by congruence. reflexivity.
   Qed.
 End Deep.
